@@ -203,7 +203,11 @@ impl Ids {
     fn ltail(&self) -> String {
         let d = format!("{:?}", self.local.as_ref().unwrap());
         match (dbg_pair(&d, "max"), dbg_pair(&d, "unallocated")) {
-            (Some(m), Some(u)) => format!("max={},{} un={},{}", m.0, m.1, u.0, u.1),
+            (Some(m), Some(u)) => {
+                // what `opened_streams` answers (gate of `try_load_data_into_once` and of `check_local_created`)
+                let l = self.local.as_ref().unwrap();
+                format!("max={},{} un={},{} op={},{}", m.0, m.1, u.0, u.1, l.opened_streams(Dir::Bi), l.opened_streams(Dir::Uni))
+            }
             _ => "max=? un=?".into(),
         }
     }
@@ -323,7 +327,12 @@ impl Ids {
                     for (i, d) in [(0usize, Dir::Bi), (1usize, Dir::Uni)] {
                         if self.lmon.count[i] > self.lmon.granted[i] {
                             sink.branch("revise:rejected:more_open_than_allowed");
-                            let _ = d;
+                            // the streams beyond the peer's real limit must be held back: `opened_streams` is what
+                            // `DataStreams::try_load_data_into_once` lets send
+                            let usable = l.opened_streams(d);
+                            if usable > self.lmon.granted[i] {
+                                sink.monitor_fail("open_beyond_limit:usable_after_0rtt_rejected", &format!("0-RTT rejected: the peer allows {} {} streams, opened_streams still answers {}", self.lmon.granted[i], dn(d), usable));
+                            }
                         }
                     }
                 }
